@@ -368,7 +368,7 @@ impl QuantizedHnswIndex {
         // Get candidates using HNSW (with full precision distances for now)
         // In a production system, you'd modify HNSW to use quantized distances
         let num_candidates = if self.rescore {
-            k * self.rescore_factor
+            k.saturating_mul(self.rescore_factor)
         } else {
             k
         };
@@ -397,7 +397,7 @@ impl QuantizedHnswIndex {
 
         // Get candidates - use more candidates for binary (less accurate)
         let num_candidates = if self.rescore {
-            k * self.rescore_factor * 2 // Binary needs more candidates
+            k.saturating_mul(self.rescore_factor).saturating_mul(2) // Binary needs more candidates
         } else {
             k
         };
@@ -439,7 +439,7 @@ impl QuantizedHnswIndex {
 
         // Get candidates using HNSW
         let num_candidates = if self.rescore {
-            k * self.rescore_factor
+            k.saturating_mul(self.rescore_factor)
         } else {
             k
         };
@@ -633,6 +633,22 @@ mod tests {
         assert_eq!(results.len(), 5);
         // Should find the correct vector (rescoring fixes quantization errors)
         assert_eq!(results[0].0, NodeId::new(26));
+    }
+
+    #[test]
+    fn test_quantized_hnsw_huge_k_returns_everything() {
+        // k * rescore_factor must not overflow: the plain index accepts every k
+        for quantization in [QuantizationType::Scalar, QuantizationType::Binary] {
+            let config = HnswConfig::new(4, DistanceMetric::Euclidean);
+            let index =
+                QuantizedHnswIndex::with_seed(config, quantization, 42).with_training_threshold(10);
+            let vectors = create_test_vectors(12, 4);
+            for (i, vec) in vectors.iter().enumerate() {
+                index.insert(NodeId::new(i as u64 + 1), vec);
+            }
+            assert_eq!(index.search(&vectors[0], usize::MAX).len(), 12);
+            assert_eq!(index.search(&vectors[0], usize::MAX / 2 + 1).len(), 12);
+        }
     }
 
     #[test]
